@@ -210,7 +210,11 @@ pub fn measure(cfg: &Cfg, cand: &Universal2DBox, t: &TrackView) -> Option<i64> {
         PositionalMetricType::Mahalanobis => {
             let f = Universal2DBoxKalmanFilter::new(cfg.pos_w, cfg.vel_w);
             let d = f.distance(t.kstate?, cand);
-            let w = Universal2DBoxKalmanFilter::calculate_cost(d, true) / conf;
+            // Gate.tla (Inverted, 5 degrees of freedom): the gate is the 0.95 quantile of chi-square, 11.070; inside it the
+            // cost is 100 - d.  Written out here instead of calling the library's calculate_cost, so that the recorded
+            // weights do not follow a change of the library's gate.
+            let cost: f32 = if d > 11.070 { 0.0 } else { 100.0 - d };
+            let w = cost / conf;
             let i = (w * 10_000.0) as i64;
             if i > 0 {
                 Some(i)
